@@ -55,19 +55,21 @@
      - Commit's returned End and Write's returned Authorized (the synchronizer forwards
        the LAST response, not the merged one: observed, the statement does not speak of it).
 
-   Named deviation of the code as written (guard constant):
-     PartialSync  a Sync writer may send a frame without a series for one of its PEER
-                  leaseholders. peerSwitchSender then sends that peer nothing, the
-                  synchronizer waits for nodeCount responses and the writer is stuck
-                  (NoStuckWriter fails). Masked (FALSE): such frames only from non-Sync
-                  writers. The statement has no liveness clause, so the harness records
-                  the hang of the directed script as an observation, not a verdict.
+   Named deviation (guard constant), a genuine defect this check found and /repo fixed:
+     SkipAbsentPeers  TRUE = writer/switch.go before the fix: peerSwitchSender sent a Write
+                  request only to the peers the frame has a series for. A Sync writer then
+                  waits for nodeCount responses forever (NoStuckWriter fails), and
+                  freightfluence.BatchSwitchSender, which reused its address map between
+                  requests, re-sent that peer its PREVIOUS request (duplicated samples: the
+                  harness attributes violations of scripts containing such a frame to the
+                  finding's signature). FALSE = code as written now: every peer receives its
+                  (possibly empty) part, as the gateway and the free writer always did.
 
    Bug names a seeded fault used to show that the properties are not vacuous
    (the same faults are applied to the real code as mutations):
      "drop_part" "ack_first" "count_short" "no_broadcast" "skip_validate" "local_remote" *)
 EXTENDS Integers, FiniteSets, Sequences, TLC
-CONSTANTS NNodes, Groups, HasFree, T, MaxLen, MaxId, MaxSeq, Writers, PartialSync, Bug
+CONSTANTS NNodes, Groups, HasFree, T, MaxLen, MaxId, MaxCommits, Writers, SkipAbsentPeers, Bug
 
 Node == 1..NNodes
 Free == 0
@@ -100,7 +102,7 @@ Max(S) == CHOOSE x \in S : \A y \in S : y <= x
 Min(S) == CHOOSE x \in S : \A y \in S : x <= y
 
 NoWriter == [open |-> FALSE, g |-> 1, keys |-> {}, start |-> 0, sync |-> FALSE, auto |-> FALSE,
-             phase |-> "idle", seq |-> 0,
+             phase |-> "idle", seq |-> 0, nc |-> 0,
              hwm |-> [x \in Groups |-> -1], n |-> [x \in Groups |-> 0], ins |-> [x \in Groups |-> FALSE],
              gbuf |-> {}, lbuf |-> [x \in Node |-> {}],
              q |-> [x \in Holders |-> <<>>], resp |-> {}, cseq |-> [x \in Holders |-> 0], acked |-> 0]
@@ -138,8 +140,8 @@ Quiescent == /\ \A w \in Writers : Quiet(w) /\ wr[w].phase = "idle"
 
 \* ------------------------------------------------------------ writer
 \* fails iff some key does not exist (writer.Service.validateChannelKeys)
-OpenWriter(w, g, keys, s, sync, auto) ==
-  /\ ~wr[w].open /\ g \in Node /\ keys # {} /\ s \in Time /\ Quiescent
+OpenWriterCore(w, g, keys, s, sync, auto) ==
+  /\ ~wr[w].open /\ g \in Node /\ keys # {} /\ s \in Time
   /\ IF ~(keys \subseteq meta)
      THEN /\ res' = "notfound" /\ UNCHANGED <<lease, meta, single, sdom, local, wr, it, nextId>>
      ELSE /\ keys \cap OpenKeys = {}
@@ -148,6 +150,8 @@ OpenWriter(w, g, keys, s, sync, auto) ==
                                                       !.sync = sync, !.auto = auto,
                                                       !.hwm = [x \in Groups |-> s - 1]]]
           /\ res' = "ok" /\ UNCHANGED <<lease, meta, single, sdom, local, it, nextId>>
+\* generated scripts make client calls only when nothing is in flight (replayable call by call)
+OpenWriter(w, g, keys, s, sync, auto) == Quiescent /\ OpenWriterCore(w, g, keys, s, sync, auto)
 
 \* legality of a frame for group g exactly as CesiumStore.WriteGuard
 IdxAfter(w, g) == {t \in Samples(Idx(g)) : t >= wr[w].start}
@@ -165,11 +169,14 @@ GroupGuard(w, g, times) ==
 \* a frame: the groups it carries (all of that group's channels the writer owns), whether it
 \* carries the free channel, and ONE set of sample times per frame
 FrameChans(w, gs, fr) == UNION {wr[w].keys \cap ChansOf(g) : g \in gs} \cup (IF fr THEN {"F"} ELSE {})
-\* who receives a Write request (code as written): the gateway and the free writer always,
-\* a peer only when the frame has a series for it
+\* a frame that has no series for one of the writer's PEER leaseholders
+LacksPeer(w, chans) == \E n \in Involved(wr[w].keys) : n # wr[w].g /\ n # Free /\ PartOf(chans, n) = {}
+\* who receives a Write request: every leaseholder of the writer (before the fix: a peer only
+\* when the frame has a series for it)
 Recipients(w, chans) ==
-  {n \in Involved(wr[w].keys) : n = wr[w].g \/ n = Free \/ PartOf(chans, n) # {}}
-LacksPeer(w, chans) == Recipients(w, chans) # Involved(wr[w].keys)
+  IF SkipAbsentPeers
+  THEN {n \in Involved(wr[w].keys) : n = wr[w].g \/ n = Free \/ PartOf(chans, n) # {}}
+  ELSE Involved(wr[w].keys)
 
 Pairs(chans, times, id) == {<<c, t, id>> : c \in chans \cap Stored, t \in times}
 \* commit of a set of <<c,t,id>> triples into a sample map
@@ -192,7 +199,6 @@ WriteGuard(w, gs, fr, times) ==
   /\ gs \subseteq GroupsIn(wr[w].keys) /\ (fr => "F" \in wr[w].keys)
   /\ (gs # {} \/ fr)
   /\ \A g \in gs : GroupGuard(w, g, times)
-  /\ (wr[w].sync /\ LacksPeer(w, FrameChans(w, gs, fr))) => PartialSync
 
 WriteReq(w, gs, fr, times) ==
   /\ WriteGuard(w, gs, fr, times)
@@ -245,9 +251,9 @@ WriteAck(w) ==
   /\ UNCHANGED <<lease, meta, single, sdom, local, it, nextId, res>>
 
 CommitReq(w) ==
-  /\ wr[w].open /\ wr[w].phase = "idle" /\ ~it.open /\ ~wr[w].auto /\ wr[w].seq < MaxSeq
+  /\ wr[w].open /\ wr[w].phase = "idle" /\ ~it.open /\ ~wr[w].auto /\ wr[w].nc < MaxCommits
   /\ LET seq == wr[w].seq + 1
-         w2 == [wr[w] EXCEPT !.seq = seq, !.phase = "waitC", !.resp = {}, !.gbuf = {},
+         w2 == [wr[w] EXCEPT !.seq = seq, !.nc = @ + 1, !.phase = "waitC", !.resp = {}, !.gbuf = {},
                              !.ins = [g \in Groups |-> @[g] \/ g \in GroupsWith(wr[w].gbuf)],
                              !.q = [n \in Holders |-> IF n \in Involved(wr[w].keys)
                                                       THEN Append(@[n], Msg("commit", seq, {})) ELSE @[n]]]
@@ -338,6 +344,6 @@ OpenFailsOnUnknownChannel ==
 \* the merged answer of an iterator is exactly the single-node store's read
 IterExact == [][(it.open /\ it.pend = {} /\ ~it'.open) =>
                    it.acc = ReadOf(single, it.keys, it.a, it.b)]_vars
-\* masked only: a Sync writer whose requests were all processed is released
+\* a Sync writer whose requests were all processed is released (fails with SkipAbsentPeers)
 NoStuckWriter == \A w \in Writers : (wr[w].phase # "idle" /\ Quiet(w)) => Fulfilled(w)
 =============================================================================
